@@ -63,7 +63,16 @@ func count(k string) {
 	if !quiet {
 		res.Distribution[k]++
 	}
+	if timing != nil {
+		now := time.Now()
+		timing[k] += now.Sub(lastCount)
+		lastCount = now
+	}
 }
+
+// VERIF_TIMING=1: wall time attributed to the counter that follows it (development aid; printed to stderr at the end)
+var timing map[string]time.Duration
+var lastCount time.Time
 func countN(k string, n int)    { res.Distribution[k] += n }
 func nontrivial(key string)     { distinct[key] = true }
 func thorough() bool            { return tier == "thorough" }
@@ -264,6 +273,16 @@ func main() {
 		*budget = scale(240, 600)
 	}
 	deadline = time.Now().Add(time.Duration(*budget) * time.Second)
+	if os.Getenv("VERIF_TIMING") != "" {
+		timing, lastCount = map[string]time.Duration{}, time.Now()
+		defer func() {
+			for k, d := range timing {
+				if d > 500*time.Millisecond {
+					fmt.Fprintf(os.Stderr, "timing %-45s %v\n", k, d.Round(time.Millisecond))
+				}
+			}
+		}()
+	}
 	checkDigest()
 	useEcho := *prop != "C12" && *prop != "C13" && *prop != "C14"
 	echoOff = !useEcho
